@@ -1,4 +1,4 @@
-from .common import LEAN_TB
+from .common import RUN_WSSTREAM_SMALL, RUN_WSCONC_SMALL, LEAN_TB
 
 PROP = {
         "id": "C06",
@@ -33,8 +33,12 @@ PROP = {
             "quick": {"gen": [(150, 4)]},
             "thorough": {"gen": [(1200, 5)]},
             "timeout": 1500,
-        }],
-        "keys": ["wsmsg.*", "wshandshake.bytes-after-blank-line"],
+        },
+            # delivery while the closing handshake is under way (our Close is out, the peer still sends) and with writes in flight
+            # (a read requested while a flush is in flight must start once it completes): components of C08 and C17
+            RUN_WSSTREAM_SMALL, RUN_WSCONC_SMALL],
+        "keys": ["wsmsg.*", "wshandshake.bytes-after-blank-line", "wsstream.delivery", "wsstream.violation-not-reported", "wsstream.read-after-close",
+                 "wsstream.state", "wsconc.read-result-differs-from-peer-stream", "wsconc.callback-never-invoked", "wsconc.callback-twice"],
         "rule": "scripts = a session of a conforming server at message level (0-6 text/binary messages; payload sizes 0, 1, 125, 126, 127, "
                 "max-1, max, random, rarely 65535/65536/65537 with max in {65535, 65536, 70000, 524288}; max otherwise from "
                 "{2,16,125,126,127,300,1000,4096}), each message cut into 1-6 fragments at random and boundary-biased points (empty "
